@@ -541,7 +541,18 @@ impl<'a> Gen<'a> {
                 flags1: rng.next_u64() as u8 & 0x7f,
             });
         }
-        let start = *rng.pick(&[1_700_000_000u128 * SEC, 5 * SEC, 0, ((1u128 << 63) - 20_000_000_000) * F32, 1u128 << 79]);
+        // incl. 20 s before 2^63 ns and before 2^64 ns (the i64 / u64 nanosecond boundaries are crossed while the scenario
+        // runs) and the last days of the 48-bit seconds field
+        let start = *rng.pick(&[
+            1_700_000_000u128 * SEC,
+            1_700_000_000u128 * SEC,
+            5 * SEC,
+            0,
+            ((1u128 << 63) - 20_000_000_000) * F32,
+            1u128 << 79,
+            ((1u128 << 64) - 20_000_000_000) * F32,
+            ((1u128 << 48) - 200_000) * SEC,
+        ]);
         self.w = World { own_clock: own, own_sdo: sdo, own_domain: domain, masters, ports: vec![], parent: String::new(), now: start, path_trace, slave_only, own_p1: p1, own_class: class };
         self.emit(line);
         if bmca_first {
@@ -949,6 +960,9 @@ impl<'a> Gen<'a> {
         let k = 1 + rng.below(self.w.ports.len() as u64) as usize;
         let mi = rng.below(self.w.masters.len() as u64) as usize;
         let n = 2 + rng.below(2);
+        // two ports of the instance on one segment: both hear the very same Announces (same bytes, same BMCA period)
+        let np = self.w.ports.len();
+        let twin = if np >= 2 && rng.chance(1, 3) { Some(1 + (k - 1 + 1 + rng.below(np as u64 - 1) as usize) % np) } else { None };
         for _ in 0..n {
             if self.dead {
                 return;
@@ -959,7 +973,15 @@ impl<'a> Gen<'a> {
             f.flags[1] = m.flags1;
             f.set_announce(&m.ann);
             self.out.count("gen.announce-burst");
-            self.emit(format!("P{k} GEN {}", hex(&f.bytes())));
+            let bytes = hex(&f.bytes());
+            self.emit(format!("P{k} GEN {bytes}"));
+            if let Some(j) = twin {
+                if self.dead {
+                    return;
+                }
+                self.out.count("gen.announce-burst-twin");
+                self.emit(format!("P{j} GEN {bytes}"));
+            }
         }
         if !self.dead {
             self.bmca_op(rng);
